@@ -30,7 +30,7 @@ def gen_target(rng, depth_in_root, n):
     """A request path (without route prefix). Net '..' count is bounded so
     that a successful escape stays inside the scratch base."""
     shape = rng.choice(["up-from-root", "up-from-collection", "up-from-member", "encoded-slash", "absolute-form", "double-slash", "plain-outside-name", "long", "nul", "backslash",
-                        "double-encoded-last-segment", "double-encoded-last-segment", "leading-slashes", "compat-chars-last-segment"])
+                        "double-encoded-last-segment", "double-encoded-last-segment", "leading-slashes", "compat-chars-last-segment", "dots-after-a-segment-with-url-syntax", "dots-after-a-segment-with-url-syntax"])
     ups = rng.randint(1, 3)
     upseg = [rng.choice(UP) for _ in range(ups)]
     tail = rng.choice(OUTSIDE_EXISTING + ["evil-%d" % n, "evil-%d/" % n, "evil-%d/x.ics" % n, "sibling-cal/new-%d.ics" % n, "canary/new-%d.ics" % n,
@@ -54,6 +54,12 @@ def gen_target(rng, depth_in_root, n):
         sl = rng.choice(["\uff0f", "\uff0f", "\u2215", "\u2044"])
         seg = (up + sl) * (depth + rng.randint(0, 1)) + t.replace("/", sl)
         return col + urllib.parse.quote(seg, safe=""), shape
+    if shape == "dots-after-a-segment-with-url-syntax":
+        # an existing collection whose (decoded) name contains '?', '#' or ';': a URL function applied to the decoded path
+        # would take the rest for a query / fragment / parameters and leave the dot segments in it alone
+        first = rng.choice(["q%3Fx", "h%23y", "semi%3Bz", "q%3Fx/deeper"])
+        n_up = first.count("/") + 1 + rng.randint(1, 2)
+        return "/" + first + "/" + "/".join([".."] * n_up + [tail]), shape
     if shape == "leading-slashes":
         k = rng.randint(2, 4)
         return "/" * k + rng.choice(["canary/secret.txt", "canary/", "sibling-cal/m.ics", "evil-%d/" % n]).join(["", ""]) if False else "/" * k + os.path.join(BASE_ABS[0].lstrip("/"), tail), shape
@@ -254,6 +260,8 @@ def run_shard(args):
         w.mkcol("/user/calendars/cal0/", "calendar")
         w.mkcol("/user/contacts/ab0/", "addressbook")
         w.mkcol("/top/", "plain")
+        for odd in ("/q%3Fx/", "/q%3Fx/deeper/", "/h%23y/", "/semi%3Bz/"):
+            w.call("setup", "MKCOL", w.prefix.rstrip("/") + odd, [], None, record=False)
         w.put("/user/calendars/cal0/", "a.ics", gen.ical(rng, "in-root", "inside", rich=False))
         w.put("/user/contacts/ab0/", "c.vcf", gen.vcard(rng, "in-root", "inside", rich=False))
         if ag is not None:
@@ -458,7 +466,7 @@ def check(tier, seed, t0):
     for m in ("GET", "PUT", "DELETE", "MKCOL", "MKCALENDAR", "PROPFIND", "PROPPATCH", "REPORT", "POST"):
         guards.append(("method " + m, c.get("method:" + m, 0), 50))
     guards.append(("shards whose data directory lies inside another git work tree", c.get("shards_with_outer_repository", 0), 4))
-    for sh in ("ordinary-below-plain-directory", "up-from-root", "up-from-collection", "up-from-member", "encoded-slash", "absolute-form", "double-slash", "double-encoded-last-segment", "leading-slashes", "compat-chars-last-segment", "backslash", "nul"):
+    for sh in ("dots-after-a-segment-with-url-syntax", "ordinary-below-plain-directory", "up-from-root", "up-from-collection", "up-from-member", "encoded-slash", "absolute-form", "double-slash", "double-encoded-last-segment", "leading-slashes", "compat-chars-last-segment", "backslash", "nul"):
         guards.append(("targets of shape " + sh, c.get("shape:" + sh, 0), 200))
     if th:
         guards.append(("strace calls judged", c.get("strace_calls_judged", 0), 10000))
